@@ -256,6 +256,83 @@ class GenerateInstanceFiles(Target):
         return cl
 
 
+WS = ' \t\n\r\x0b\x0c'
+REAL_STATUS = data_mod.Status
+
+
+class StatusFromFile(Target):
+    """Status.statusFromFile on the text that Status.writeToStream produces (one `key=value` line per key, sorted): every
+    field is read back with exactly the text that was written -- values are ARBITRARY strings without whitespace ('%', quotes ...; one of them
+    contains the separator '='), keys are the ones the runtime writes.  The real Status constructor is interpreted too
+    (the Status(...) call inside statusFromFile builds a stub whose methods are the real ones)."""
+    prop = 'C14'
+    name = 'Status.statusFromFile'
+    file = D
+    qualname = 'Status.statusFromFile'
+    compare_return = False
+    trusted = ["open(...).read() returns the bytes of the file (the trace side is Status.update)",
+               "str.encode('utf-8').decode('unicode_escape') inverts the escaping of writeToStream (bounded round trip below)"]
+    assumptions = ["values of the plain fields contain no whitespace (the constructor strips values: a value with leading or "
+                   "trailing blanks is NOT read back verbatim -- the runtime writes states, numbers and timestamps); "
+                   "error-description: concrete hostile samples"]
+    KEYS = ['cost', 'current-stage', 'exit-status', 'experiment-state', 'stage-progress', 'stage-state', 'total-progress']
+    DESCS = [None, 'plain', 'two\nlines and = sign', 'back\\slash \t tab', '  padded with blanks \n']
+
+    def setup(self, c):
+        present = [k for k in self.KEYS if c.one_of('writes:' + k, [True, False])] if c.one_of('all_fields', [True, False]) is False \
+            else list(self.KEYS)
+        values = {k: c.atom('value:' + k, 'Val-%s' % k, excludes=WS + '=') for k in present}
+        if 'exit-status' in values:
+            # a value that certainly contains the separator of the file format
+            from pyvc import sstr as _s
+            pieces = (values['exit-status'], '=', c.atom('value:exit-status:tail', 'X', excludes=WS + '='))
+            values['exit-status'] = _s.simplify(_s.concat(_s.concat(pieces[0], pieces[1]), pieces[2])) if c.mode == 'sym' else ''.join(pieces)
+        desc = self.DESCS[c.choice('error-description', len(self.DESCS))]
+        lines = {k: values[k] for k in present}
+        lines['stages'] = "['stage0', 'stage1']"
+        if desc is not None:
+            lines['error-description'] = desc.encode('unicode_escape').decode('utf-8')
+        from pyvc import sstr as _sstr
+        text = ''
+        for k in sorted(lines):
+            for piece in (k, '=', lines[k], '\n'):
+                text = _sstr.simplify(_sstr.concat(text, piece)) if c.mode == 'sym' else text + piece
+        cls = Obj('Status-class')
+        return State(args=[cls, '/inst/output/status.txt'], values=values, desc=desc, text=text, cls=cls)
+
+    def real_function(self):
+        return REAL_STATUS.__dict__['statusFromFile'].__func__       # the module global `Status` is patched during native runs
+
+    def externs(self, c, st):
+        f = Obj('file', read=Extern('file.read', lambda c: st.text), __enter__=None, __exit__=None)
+        f.__enter__ = Extern('file.__enter__', lambda c: f)
+        f.__exit__ = Extern('file.__exit__', lambda c, *a: False)
+        ctor = Extern('Status', lambda c, filename, data, stages: c.new_instance(D, 'Status', 'status', filename, data, stages))
+        ctor.defaults = dict(data_mod.Status.defaults)
+        return {'open': Extern('open', lambda c, fn, mode='r': f), 'Status': ctor}
+
+    def ensures(self, c, st, out):
+        if out.kind == 'raise':
+            return [('a-written-status-file-can-be-loaded', False)]
+        from pyvc import sstr as _sstr
+        loaded = out.value.data
+        ok = True
+        for k, v in st.values.items():
+            got = loaded.get(k)
+            if not (isinstance(got, (str, _sstr.SStr)) and _sstr.equal(got, v)):
+                ok = False
+        untouched = all(loaded.get(k) == data_mod.Status.defaults[k] for k in self.KEYS if k not in st.values)
+        return [('a-written-status-file-can-be-loaded', True),
+                ('every-field-is-read-back-as-written', ok),
+                ('fields-not-in-the-file-keep-their-defaults', untouched),
+                ('stages-are-read-back', list(loaded.get('stages')) == ['stage0', 'stage1']),
+                ('the-error-description-is-read-back-verbatim', loaded.get('error-description') == st.desc if st.desc is not None
+                 else 'error-description' not in loaded)]
+
+    def cross_compare(self, *a):
+        return []
+
+
 class PrefixClosure(Lemma):
     """every prefix of a conforming trace leaves the target file equal to the old or the new version:
     the only event that changes a target is rename(t, target) of a complete temp file, and it is atomic (assumed)."""
@@ -295,11 +372,17 @@ class StatusRoundTrip:
                     fn = os.path.join(d, 'status.txt')
                     stt = data_mod.Status(fn, {}, ['stage0'])
                     stt.setErrorDescription(desc)
+                    stt.data['exit-status'] = 'Failed=1%(x)s"q\''
+                    stt.data['current-stage'] = 'Stage-%d' % updates
                     ok = True
                     for _ in range(updates):
                         ok = stt.update() and ok
                     back = data_mod.Status.statusFromFile(fn)
                     got = back.data.get('error-description')
+                    other = [k for k in stt.data if k not in ('stages', 'updated', 'error-description')
+                             and back.data.get(k) != '%s' % stt.data[k]]
+                    if other:
+                        got = "field %s read back as %r" % (other[0], back.data.get(other[0]))
                     if not ok or got != desc:
                         bad.append({"what": "status round trip: wrote %r with %d update(s), read %r" % (desc, updates, got),
                                     "replay": self._replay(desc, updates, got)})
@@ -321,6 +404,6 @@ class StatusRoundTrip:
         return f
 
 
-TARGETS = [StatusUpdate(), StatusWriteToStream(), UpdateLogs(), StatusDetails(), StoreFlowIR(), GenerateInstanceFiles()]
+TARGETS = [StatusUpdate(), StatusWriteToStream(), UpdateLogs(), StatusDetails(), StoreFlowIR(), GenerateInstanceFiles(), StatusFromFile()]
 LEMMAS = [PrefixClosure()]
 BOUNDED = [StatusRoundTrip()]
